@@ -18,7 +18,8 @@ CLAUSES = {
 }
 HOOKS_REQUIRED = ["tiled_choice<-configuration", "stochastic_universal_sampling<-configuration", "outcross_shuffle<-configuration",
                   "plug-in optimiser called by protocol", "constrained front mixing feasible and infeasible points",
-                  "cross-level truncation with nparent >= 3 and selfing allowed"]
+                  "cross-level truncation with nparent >= 3 and selfing allowed", "fronts re-evaluated: real multi-objective optimiser",
+                  "equivariance: decoy run with different content in the inputs the protocol does not read"]
 RULE = ("three seeded families.  cfg: the eight sampled configuration classes built directly from hostile decisions (subsets whose size "
         "divides / does not divide / exceeds the number of slots, repeated members; contribution vectors with zeros, one-hot, equal, "
         "1e-9..1 magnitudes; integer/binary counts with zeros, totals below/at/above the slot count; candidate-cross maps with and without "
@@ -28,10 +29,12 @@ RULE = ("three seeded families.  cfg: the eight sampled configuration classes bu
         "decision / front / deterministic candidate-list plug-in, the repo's sorting optimiser, or a GA with ngen<=15, pop<=24), "
         "1-2 inequality and/or 1 equality constraint (harness transformation making 30-70 % of all decisions infeasible) in half of the "
         "multi-objective runs of every encoding, cross-level protocols with nparent 1-4 x unique_parents on/off, populations with shuffled names and "
-        "ungrouped families, gmat = the pgmat object | an equal but distinct phased object | unphased counts, 1-3 traits, ties and duplicated individuals, 1-2 objectives, "
+        "ungrouped families, gmat = the pgmat object | a distinct phased object | unphased counts, the distinct ones carrying their own "
+        "calls (5-50 % of the alleles differ from pgmat) in 60 % of the worlds, breeding values drawn independently of the genomic model, 1-3 traits, ties and duplicated individuals, 1-2 objectives, "
         "objective weights of mixed sign and non-unit magnitude whenever there are 2 objectives (all encodings), "
         "ndset weights of both signs with four harness transformations or the library default.  equi: subset-encoded protocols run on a "
-        "population, on a consistently permuted copy and on a renamed copy with exact optimisers.  Non-trivial: more than one slot or "
+        "population, on a consistently permuted copy, on a renamed copy and on a decoy copy whose inputs the family does not read (pgmat / "
+        "gmat / bvmat / gpmod, table USES) carry different content, with exact optimisers.  Non-trivial: more than one slot or "
         "more than one candidate; distinct = digest of the generated inputs.")
 ASSUME = ["all inputs of one select() call list the taxa in the same order (the API has no alignment step)",
           "a protocol minimises obj_wt * obj_trans(latent) and its latent vector is the negated criterion, so with weight +1 and a "
@@ -52,6 +55,11 @@ ASSUME = ["all inputs of one select() call list the taxa in the same order (the 
           "C07.mo is judged on the whole returned front (feasible and infeasible members alike): the declared preference is "
           "ndset_wt*ndset_trans(soln_obj), nothing in it refers to constraint violations",
           "cross-level truncation ranks every row of the candidate-cross map, whether or not the protocol's decision space lists it",
+          "each family reads the inputs its name and problem() documentation name (table USES): genomic criteria are computed from the "
+          "calls of the gmat argument, EBV criteria from the bvmat argument; replacing any other input must not change an exact choice",
+          "C07.mo second route: every returned front decision is evaluated afresh with the problem object the protocol built (captured "
+          "from protocol.problem); the configuration must come from a maximiser (1e-9 relative) of the declared preference over those values; "
+          "real NSGA-II classes (the protocols' defaults, ngen<=15, pop<=24) solve a third of the multi-objective runs",
           "C07.mo accepts any maximiser of ndset_wt*ndset_trans(front) (ties), recomputed by calling the declared function on the returned front"]
 TOL = 1e-9
 
@@ -61,6 +69,15 @@ OWN_CRITERION = ("OptimalHaploidValue", "UsefulnessCriterion")
 NOT_EQUIVARIANT = ("Random", "ExpectedMaximumBreedingValue")   # criterion is drawn / simulated: no deterministic choice to permute
 GA_SO = {"Subset": "SubsetGeneticAlgorithm", "Real": "RealGeneticAlgorithm", "Integer": "IntegerGeneticAlgorithm", "Binary": "BinaryGeneticAlgorithm"}
 GA_MO = {e: "NSGA2" + v for e, v in GA_SO.items()}
+
+# which of the population inputs of select() each family documents as the source of its criterion
+USES = {"EstimatedBreedingValue": {"bvmat"}, "FamilyEstimatedBreedingValue": {"bvmat"},
+        "GenomicEstimatedBreedingValue": {"gmat", "gpmod"}, "GeneralizedWeightedGenomicEstimatedBreedingValue": {"gmat", "gpmod"},
+        "WeightedGenomic": {"gmat", "gpmod"}, "OptimalContribution": {"bvmat", "gmat"}, "MeanExpectedHeterozygosity": {"gmat"},
+        "MeanGenomicRelationship": {"gmat"}, "L2NormGenomic": {"gmat"}, "MultiObjectiveGenomic": {"gmat", "gpmod"},
+        "PopulationAlleleFrequencyDistance": {"gmat", "gpmod"}, "PopulationAlleleUnavailability": {"gmat", "gpmod"},
+        "OptimalHaploidValue": {"pgmat", "gpmod"}, "OptimalPopulationValue": {"pgmat", "gpmod"}, "GenotypeBuilder": {"pgmat", "gpmod"},
+        "UsefulnessCriterion": {"pgmat", "gpmod"}}
 
 _STATE = {}
 ACTIVE = {"on": False, "icls": "any", "coords": None, "ctx": None}
@@ -163,6 +180,16 @@ def draw_arrays(g, n, m, t, bvcls="gauss", polymorphic=False):
         mat[:, 1, :] = mat[:, 0, :]
     if polymorphic:
         mat[0, 0, :] = 0; mat[1, 0, :] = 1   # both alleles present at every locus
+    # the genotype matrix handed over as ``gmat`` carries its own calls (genotyping errors / a different call set of the same
+    # individuals) in 60 % of the worlds, so that a criterion computed from the documented input tells the two inputs apart
+    gmat = mat.copy()
+    if g.random() < 0.6:
+        flip = g.random(gmat.shape) < float(g.choice([0.05, 0.2, 0.5]))
+        if not flip.any():
+            flip[int(g.integers(2)), int(g.integers(n)), int(g.integers(m))] = True
+        gmat = numpy.where(flip, 1 - gmat, gmat).astype("int8")
+        if polymorphic:
+            gmat[0, 0, :] = 0; gmat[1, 0, :] = 1
     names = numpy.array(["x%03d" % v for v in g.permutation(900)[:n]], dtype=object)   # distinct, not in sorted order
     grp = g.integers(0, 3, n).astype("int64")
     nchr = int(g.integers(1, 3))
@@ -177,7 +204,7 @@ def draw_arrays(g, n, m, t, bvcls="gauss", polymorphic=False):
         raw[1] = raw[0]
     u = g.normal(size=(m, t))
     u[g.random((m, t)) < 0.15] = 0.0
-    return dict(mat=mat, taxa=names, taxa_grp=grp, chrgrp=chrgrp, phypos=numpy.arange(1, m + 1, dtype="int64") * 10,
+    return dict(mat=mat, gmat=gmat, taxa=names, taxa_grp=grp, chrgrp=chrgrp, phypos=numpy.arange(1, m + 1, dtype="int64") * 10,
                 genpos=numpy.cumsum(g.uniform(0.001, 0.3, m)), xoprob=pop.make_xoprob(g, chrgrp, "random"),
                 vname=numpy.array(["m%03d" % i for i in range(m)], dtype=object), raw=raw, beta=g.normal(size=(1, t)), u=u,
                 trait=numpy.array(["trait%d" % i for i in range(t)], dtype=object), nchr=nchr)
@@ -198,25 +225,26 @@ def build_world(A, perm=None, rename=False, unphased=False):
     pg = DensePhasedGenotypeMatrix(A["mat"][:, p, :].copy(), taxa=taxa.copy(), taxa_grp=A["taxa_grp"][p].copy(), **vk)
     pg.group_vrnt()
     if unphased:
-        gm = DenseGenotypeMatrix(A["mat"][:, p, :].sum(0).astype("int8"), taxa=taxa.copy(), taxa_grp=A["taxa_grp"][p].copy(), ploidy=2,
+        gm = DenseGenotypeMatrix(A["gmat"][:, p, :].sum(0).astype("int8"), taxa=taxa.copy(), taxa_grp=A["taxa_grp"][p].copy(), ploidy=2,
                                  **{k: v.copy() for k, v in vk.items()})
         gm.group_vrnt()
     elif unphased is None:      # an equal but distinct phased object: the configuration must carry the matrix passed as pgmat
-        gm = DensePhasedGenotypeMatrix(A["mat"][:, p, :].copy(), taxa=taxa.copy(), taxa_grp=A["taxa_grp"][p].copy(),
+        gm = DensePhasedGenotypeMatrix(A["gmat"][:, p, :].copy(), taxa=taxa.copy(), taxa_grp=A["taxa_grp"][p].copy(),
                                        **{k: v.copy() for k, v in vk.items()})
         gm.group_vrnt()
     else:
         gm = pg
     bv = DenseBreedingValueMatrix.from_numpy(A["raw"][p].copy(), taxa=taxa.copy(), taxa_grp=A["taxa_grp"][p].copy(), trait=A["trait"].copy())
     mod = DenseAdditiveLinearGenomicModel(beta=A["beta"].copy(), u_misc=None, u_a=A["u"].copy(), trait=A["trait"].copy())
-    return dict(pg=pg, gm=gm, bv=bv, mod=mod)
+    return dict(pg=pg, gm=gm, bv=bv, mod=mod, gm_calls=(A["mat"] if gm is pg else A["gmat"]))
 
 
-def criterion(fam, A, kw):
-    """Per-individual criterion matrix (n x ntrait) from the raw inputs, for the truncation-type families."""
+def criterion(fam, A, kw, calls=None):
+    """Per-individual criterion matrix (n x ntrait) from the raw inputs, for the truncation-type families.  Each family reads the
+    input its name documents: EBV the breeding-value matrix as passed, the genomic families the calls of ``gmat`` (``calls``)."""
     if fam == "EstimatedBreedingValue":
         return A["raw"].astype(float)
-    Z = A["mat"].astype(int).sum(0).astype(float)          # allele-1 counts
+    Z = (A["gmat"] if calls is None else calls).astype(int).sum(0).astype(float)          # allele-1 counts of the gmat argument
     u = A["u"]
     if fam == "GenomicEstimatedBreedingValue":
         return Z @ u + A["beta"]
@@ -561,7 +589,15 @@ def ga(enc, multi, g, tier="quick"):
     return cls(ngen=ngen, pop_size=pop)
 
 
-def run_select(sel, W, miscout):
+def run_select(sel, W, miscout, built=None):
+    if built is not None:        # record every problem object the protocol builds (instance attribute shadows the method)
+        orig = sel.problem
+
+        def recording_problem(*a, **k):
+            p = orig(*a, **k)
+            built.append(p)
+            return p
+        sel.problem = recording_problem
     return sel.select(pgmat=W["pg"], gmat=W["gm"], ptdf=None, bvmat=W["bv"], gpmod=W["mod"], t_cur=0, t_max=10, miscout=miscout)
 
 
@@ -607,7 +643,7 @@ def case_sel(ctx, c):
         if ranked:
             kinds = ["exact"] * 5 + ["sorting"] * 4 + ["ga"]
     else:
-        kinds = ["front"] * 3 + ["list"] * 2 + ["ga"]
+        kinds = ["front"] * 3 + ["list"] * 2 + ["ga"] * 2       # ga = the protocols' real default multi-objective optimiser classes
     kind = str(g.choice(kinds))
     if kind == "sorting":
         from pybrops.opt.algo.SortingSubsetOptimizationAlgorithm import SortingSubsetOptimizationAlgorithm
@@ -660,9 +696,10 @@ def case_sel(ctx, c):
         ctx.raised("%s(...)" % name, e)
         return
     miscout = {}
+    built = []
     try:
         with watching("called from a selection configuration", coords):
-            cfg = run_select(sel, W, miscout)
+            cfg = run_select(sel, W, miscout, built)
     except Exception as e:
         ctx.raised("%s.select%s: %s" % (name, " [short GA]" if kind == "ga" else "", type(e).__name__), e)
         return
@@ -734,6 +771,26 @@ def case_sel(ctx, c):
         ctx.sumnote("fronts under mixed-sign objective weights", int(numpy.any(objwt < 0) and numpy.any(objwt > 0)))
         ctx.check("C07.mo", any(score[i] == best for i in hits), ssite, "decision maximises ndset_wt*ndset_trans over the returned front",
                   wcls, witness=dict(w, preference=tcls, front_obj=F, front_decn=SD, score=score, chosen=decn, chosen_index=hits), coords=coords)
+        # independent route: evaluate every returned decision afresh with the problem the protocol built and require the configuration
+        # to come from a maximiser of the declared preference over those objectives (does not trust soln_obj nor its row order)
+        if built:
+            try:
+                F2 = numpy.stack([numpy.asarray(built[-1].evalfn(numpy.asarray(x))[0], dtype=float) for x in SD])
+                score2 = numpy.asarray(sel.ndset_wt * sel.ndset_trans(F2.copy(), **sel.ndset_trans_kwargs), dtype=float)
+            except Exception as e:
+                ctx.raised("fresh evaluation of the returned front", e)
+                score2 = None
+            if score2 is not None and numpy.all(numpy.isfinite(score2)):
+                truthful = F2.shape == F.shape and bool(numpy.allclose(F2, F, rtol=1e-9, atol=1e-12))
+                osite = ssite if truthful else type(algo).__name__ + ".minimize"
+                tol2 = 1e-9 * (1.0 + float(numpy.max(numpy.abs(score2))))
+                ctx.check("C07.mo", any(score2[i] >= score2.max() - tol2 for i in hits), osite,
+                          "decision maximises the declared preference over freshly evaluated objectives of the returned decisions"
+                          + ("" if truthful else " (reported objectives differ from a fresh evaluation)"), wcls,
+                          witness=dict(w, preference=tcls, reported_obj=F, fresh_obj=F2, front_decn=SD, fresh_score=score2, chosen=decn,
+                                       chosen_index=hits), coords=coords)
+                ctx.hook("fronts re-evaluated: real multi-objective optimiser", int(kind == "ga"))
+                ctx.sumnote("re-evaluated GA fronts with a repeated objective vector", int(kind == "ga" and len({tuple(r) for r in F2.tolist()}) < len(F2)))
         ctx.sumnote("fronts with more than one point", int(len(SD) > 1))
         ctx.sumnote("fronts where argmax != argmin", int(score.max() != score.min()))
         dom = set(range(len(F))) - set(R.nondominated(F))
@@ -746,7 +803,7 @@ def truncation(ctx, sel, cls, name, fam, mate, A, W, kw, trans, wsign, decn, xma
     site = defsite(cls, "problem").split(".")[0] + ".select"
     opt = "exact plug-in" if kind == "exact" else "repo sorting optimiser"
     if fam in INDEPENDENT and not mate:
-        C = criterion(fam, A, kw)
+        C = criterion(fam, A, kw, W["gm_calls"])
         if kw.get("unscale") is False:
             # the protocol is asked to rank on standardised values: per trait (value - mean) / sd.  The divisor convention (n or n-1)
             # rescales every trait by the same factor and cannot change the order of a weighted index.
@@ -810,10 +867,17 @@ def case_equi(ctx, c):
     n = int(g.integers(max(3, nparent + 1), 7)) if mate else max(3, k + int(g.integers(1, 5)))
     if not mate and n > 10:
         n = 10
+    big = fam == "OptimalHaploidValue" and g.random() < 0.3
+    if big:      # candidate-cross maps longer than the problem's internal chunk size (1024 rows), not a multiple of it
+        nparent = int(g.choice([2, 2, 3])); n = int(g.integers(47, 53)) if nparent == 2 else int(g.integers(20, 23))
+        k = ncross * nparent
     m = int(g.integers(6, 13)); t = int(g.integers(1, 3))
     A = draw_arrays(g, n, m, t, "gauss", polymorphic=fam in INDEPENDENT[2:])
-    unphased = bool(g.random() < 0.3)
+    unphased = [True, None, None, False][int(g.integers(4))]
     kw = extra_kwargs(g, cls, t, m, A["nchr"])
+    if big:
+        kw["unique_parents"] = True
+        ctx.sumnote("equivariance cases with a cross map longer than 1024 rows")
     nmating, nprogeny = design_params(g, ncross)
     trans = R.LinTrans(1, int(g.integers(2 ** 31)), mode=str(g.choice(["pick", "index"])))
     perm = g.permutation(n)
@@ -825,13 +889,30 @@ def case_equi(ctx, c):
     separable = fam in INDEPENDENT or fam in OWN_CRITERION
     ctx.case("equi:%s" % name, name, A["mat"], A["raw"], A["u"], perm, ncross, nparent)
     w = {"protocol": name, "kwargs": show_kwargs(kw), "ncross": ncross, "nparent": nparent, "ntaxa": n, "perm": perm, "raw_bv": A["raw"],
-         "gmat": "unphased" if unphased else "phased"}
+         "gmat": {True: "unphased", None: "distinct phased object", False: "same object as pgmat"}[unphased]}
     if c % 97 == 0:
         ctx.sample({"family": "equi", "protocol": name, "ntaxa": n, "ncross": ncross, "nparent": nparent, "perm": perm.tolist(), "kwargs": show_kwargs(kw)})
     from pybrops.core.random import prng
 
+    # decoy world: the inputs this family does not read carry different content (same individuals, same order)
+    gd = ctx.rng("equi-decoy", c)
+    uses = USES.get(fam)
+    B = None
+    if uses is not None:
+        B = dict(A); swapped = []
+        if "pgmat" not in uses and unphased is not False:
+            B["mat"] = gd.integers(0, 2, A["mat"].shape).astype("int8"); swapped.append("pgmat")
+        if "gmat" not in uses and unphased is not False:
+            B["gmat"] = gd.integers(0, 2, A["mat"].shape).astype("int8"); swapped.append("gmat")
+        if "bvmat" not in uses:
+            B["raw"] = gd.normal(size=A["raw"].shape) * 2.0 + 1.0; swapped.append("bvmat")
+        if "gpmod" not in uses:
+            B["u"] = gd.normal(size=A["u"].shape); B["beta"] = gd.normal(size=A["beta"].shape); swapped.append("gpmod")
+        w["decoy_inputs_replaced"] = swapped
+
     def run(variant, optimiser):
-        Wd = build_world(A, perm=(perm if variant == "permuted" else None), rename=(variant == "renamed"), unphased=unphased)
+        Wd = build_world(B if variant == "decoy" else A, perm=(perm if variant == "permuted" else None), rename=(variant == "renamed"),
+                         unphased=unphased)
         if optimiser == "exact":
             algo = R.plugin(enc, make_chooser(g, enc, "exact", k, []))
         else:
@@ -883,7 +964,7 @@ def case_equi(ctx, c):
             except Exception as e:
                 ctx.raised("%s.select: %s" % (name, type(e).__name__), e)
                 continue
-        for variant in ("permuted", "renamed"):
+        for variant in ("permuted", "renamed") + (("decoy",) if B is not None and swapped else ()):
             try:
                 got, info, cfg = run(variant, optimiser)
             except Exception as e:
@@ -896,6 +977,11 @@ def case_equi(ctx, c):
                 ctx.sumnote("equivariance cases skipped: optimum not unique")
                 continue
             want = image(ref) if variant == "permuted" else ref
+            if variant == "decoy":
+                ctx.hook("equivariance: decoy run with different content in the inputs the protocol does not read")
+                ctx.check("C07.equivariance", got == want, site, "choice unchanged when only inputs the family does not read are replaced",
+                          "%s/%s" % (icls, ocls), witness=dict(w, original_choice=ref, choice=got, variant=variant), coords=coords)
+                continue
             ctx.check("C07.equivariance", got == want, site,
                       "choice on the %s population is the %s of the original choice" % (variant, "image" if variant == "permuted" else "same set"),
                       "%s/%s" % (icls, ocls), witness=dict(w, original_choice=ref, choice=got, expected=want, variant=variant), coords=coords)
